@@ -7,6 +7,7 @@ SELECT = (r'characteristic_value_access$|^bluetoe::details::generate_attribute::
           r'|^bluetoe::server::(l2cap_output|handle_\w+|read_multiple\w*)$|^bluetoe::details::\w+::(operator\(\)|each|\w*collect\w*|\w*filter\w*)$|^bluetoe::link_layer::link_layer::\w*$')
 UNITS = lambda u: u in ('w_inst_att', 'w_inst_enc') or u.startswith('t_att') or u.startswith('t_encryption') or u.startswith('t_server') or u.startswith('t_char')
 EXACT = ('enc-truth-table', 'enc-wiring')   # verdicts computed from the meaning of the code (compiler / folding / symbolic terms): not gated by the golden structure
+ALSO = [('C28', ('pause-and-reset-unencrypt', 'encrypted-needs-start-enc-req'))]   # the security attribute the checks read is the link's encrypted flag: its writers are decided by C28's rules, run here as well
 META = {
     'level': 'three static layers: (T) the compiler evaluates characteristic_requires_encryption<> for all 64 placements of {none, requires, no, may} at '
              'server/service/characteristic level against the documented rule; (R) every characteristic value access implementation and the CCCD access begin with '
